@@ -227,3 +227,89 @@ def _(self: Union[DCELE(4), DCELE(132)]) -> bytes:
     returns(dc_ele_body(self) + self.signature, label="signed-bytes-then-the-signature")
     pure()
     sample_with(lambda rnd: {"self": _mk_dc_ele(rnd)})
+
+
+# ---- debug authentication challenge: the fields in the order the device sends them (what the response is checked against) ----------------------------
+from spsdk.dat.dac_packet import DebugAuthenticationChallenge  # noqa: E402
+
+
+def DAC(hl):
+    return Obj(DebugAuthenticationChallenge, version=Obj(AbsVersion, major=OneOf(1, 2), minor=OneOf(0, 1, 2)), socc=U32, uuid=Bytes(16), rotid_rkh_revocation=U32,
+               rotid_rkth_hash=Bytes(hl), cc_soc_pinned=U32, cc_soc_default=U32, cc_vu=U32, challenge=Bytes(32))
+
+
+def _mk_dac(rnd):
+    d = object.__new__(DebugAuthenticationChallenge)
+    d.version, d.socc, d.uuid = AbsVersion(rnd.choice([1, 2]), rnd.randrange(3)), rnd.getrandbits(32), bytes(rnd.getrandbits(8) for _ in range(16))
+    d.rotid_rkh_revocation, d.rotid_rkth_hash = rnd.getrandbits(32), bytes(rnd.getrandbits(8) for _ in range(rnd.choice([32, 48, 64])))
+    d.cc_soc_pinned, d.cc_soc_default, d.cc_vu = rnd.getrandbits(32), rnd.getrandbits(32), rnd.getrandbits(32)
+    d.challenge = bytes(rnd.getrandbits(8) for _ in range(32))
+    return d
+
+
+@contract("spsdk.dat.dac_packet:DebugAuthenticationChallenge.export")
+def _(self: Union[DAC(32), DAC(48), DAC(64)]) -> bytes:
+    returns(self.version.major.to_bytes(2, "little") + self.version.minor.to_bytes(2, "little") + self.socc.to_bytes(4, "little") + self.uuid
+            + self.rotid_rkh_revocation.to_bytes(4, "little") + self.rotid_rkth_hash + self.cc_soc_pinned.to_bytes(4, "little")
+            + self.cc_soc_default.to_bytes(4, "little") + self.cc_vu.to_bytes(4, "little") + self.challenge,
+            label="version-socc-uuid-revocation-rothash-pinned-default-vu-challenge")
+    pure()
+    sample_with(lambda rnd: {"self": _mk_dac(rnd)})
+
+
+# ---- RSA debug credential (protocol 1.0: RSA-2048, 1.1: RSA-4096): signed bytes and exported bytes field by field ------------------------------------------
+from spsdk.crypto.keys import PublicKeyRsa  # noqa: E402
+from spsdk.dat.debug_credential import DebugCredentialCertificateRsa  # noqa: E402
+
+inline("spsdk.dat.debug_credential:DebugCredentialCertificateRsa.get_data_format", "spsdk.dat.debug_credential:DebugCredentialCertificateRsa.export_rot_pub",
+       "spsdk.dat.debug_credential:DebugCredentialCertificateRsa.export_dck_pub")
+
+
+def RSAKEY(bits):
+    return Obj(PublicKeyRsa, e=Const(65537), n=Range(1 << (bits - 1), (1 << bits) - 1))
+
+
+def DCRSA(minor):
+    bits = 2048 if minor == 0 else 4096
+    return Obj(DebugCredentialCertificateRsa, version=Obj(AbsVersion, major=Const(1), minor=Const(minor)), socc=U32, uuid=Bytes(16), cc_socu=U32, cc_vu=U32, cc_beacon=U32,
+               rot_meta=Obj(AbsRotMeta, _bytes=Bytes(128)), rot_pub=RSAKEY(bits), dck_pub=RSAKEY(bits), signature=Bytes(bits // 8))
+
+
+def dc_rsa_body(dc):
+    n = 256 if dc.version.minor == 0 else 512
+    return ((1).to_bytes(2, "little") + dc.version.minor.to_bytes(2, "little") + dc.socc.to_bytes(4, "little") + dc.uuid + dc.rot_meta._bytes
+            + dc.dck_pub.n.to_bytes(n, "big") + (65537).to_bytes(4, "big") + dc.cc_socu.to_bytes(4, "little") + dc.cc_vu.to_bytes(4, "little")
+            + dc.cc_beacon.to_bytes(4, "little") + dc.rot_pub.n.to_bytes(n, "big") + (65537).to_bytes(4, "big"))
+
+
+_DC_RSA_KEYS = {}
+
+
+def _mk_dc_rsa(rnd):
+    from spsdk.crypto.keys import PrivateKeyRsa
+
+    minor = rnd.choice([0, 0, 1])
+    bits = 2048 if minor == 0 else 4096
+    if bits not in _DC_RSA_KEYS:
+        _DC_RSA_KEYS[bits] = [PrivateKeyRsa.generate_key(key_size=bits).get_public_key() for _ in range(2)]
+    dc = object.__new__(DebugCredentialCertificateRsa)
+    dc.version, dc.socc, dc.uuid = AbsVersion(1, minor), rnd.getrandbits(32), bytes(rnd.getrandbits(8) for _ in range(16))
+    dc.cc_socu, dc.cc_vu, dc.cc_beacon = rnd.getrandbits(32), rnd.getrandbits(32), rnd.getrandbits(32)
+    dc.rot_meta = AbsRotMeta(bytes(rnd.getrandbits(8) for _ in range(128)))
+    dc.rot_pub, dc.dck_pub = rnd.choice(_DC_RSA_KEYS[bits]), rnd.choice(_DC_RSA_KEYS[bits])
+    dc.signature = bytes(rnd.getrandbits(8) for _ in range(bits // 8))
+    return dc
+
+
+@contract("spsdk.dat.debug_credential:DebugCredentialCertificateRsa._get_data_to_sign", replay=False)
+def _(self: Union[DCRSA(0), DCRSA(1)]) -> bytes:
+    returns(dc_rsa_body(self), label="version-socc-uuid-rotmeta-dck-socu-vu-beacon-rotkey-in-this-order")
+    pure()
+    sample_with(lambda rnd: {"self": _mk_dc_rsa(rnd)})
+
+
+@contract("spsdk.dat.debug_credential:DebugCredentialCertificateRsa.export", replay=False)
+def _(self: Union[DCRSA(0), DCRSA(1)]) -> bytes:
+    returns(dc_rsa_body(self) + self.signature, label="signed-bytes-then-the-signature")
+    pure()
+    sample_with(lambda rnd: {"self": _mk_dc_rsa(rnd)})
